@@ -193,6 +193,13 @@ pub fn install_h2(p: H2Provider) {
 /// hand-made HTTP/2 request/response used until a full encoder is installed:
 /// preface, SETTINGS, HEADERS(END_HEADERS) with static-table and literal fields.
 pub fn simple_h2(r: &mut Rng, id: u64, hostile: bool) -> (Vec<u8>, Vec<u8>) {
+    simple_h2_ex(r, id, hostile, false)
+}
+
+/// `frame_size_play`: the request may announce SETTINGS_MAX_FRAME_SIZE = 1 MiB and the response may
+/// carry its header block in one HEADERS frame of more than 16384 octets (which an analyzer that
+/// keeps to the default limit does not report -- alone or in company).
+pub fn simple_h2_ex(r: &mut Rng, id: u64, hostile: bool, frame_size_play: bool) -> (Vec<u8>, Vec<u8>) {
     fn frame(t: u8, fl: u8, sid: u32, payload: &[u8]) -> Vec<u8> {
         let mut f = vec![(payload.len() >> 16) as u8, (payload.len() >> 8) as u8, payload.len() as u8, t, fl];
         f.extend_from_slice(&sid.to_be_bytes());
@@ -207,7 +214,12 @@ pub fn simple_h2(r: &mut Rng, id: u64, hostile: bool) -> (Vec<u8>, Vec<u8>) {
         b
     }
     let mut req = b"PRI * HTTP/2.0\r\n\r\nSM\r\n\r\n".to_vec();
-    req.extend(frame(4, 0, 0, &[0, 3, 0, 0, 0, 100, 0, 4, 0, 1, 0, 0]));
+    if frame_size_play && r.chance(1, 4) {
+        // the client also announces SETTINGS_MAX_FRAME_SIZE = 1 MiB (legal: 2^14..2^24-1)
+        req.extend(frame(4, 0, 0, &[0, 3, 0, 0, 0, 100, 0, 4, 0, 1, 0, 0, 0, 5, 0, 0x10, 0, 0]));
+    } else {
+        req.extend(frame(4, 0, 0, &[0, 3, 0, 0, 0, 100, 0, 4, 0, 1, 0, 0]));
+    }
     let mut block = vec![0x82, 0x86, 0x84]; // :method GET, :scheme http, :path /
     block.extend(lit(":authority", &format!("h{id}.example"), hostile || r.chance(1, 2)));
     let ua: &str = *r.pick(&UAS);
@@ -254,6 +266,22 @@ pub fn simple_h2(r: &mut Rng, id: u64, hostile: bool) -> (Vec<u8>, Vec<u8>) {
     rb.extend(lit("x-conn-id", &id.to_string(), true));
     if hostile && r.chance(1, 2) {
         rb.push(0xbe);
+    }
+    if frame_size_play && r.chance(1, 6) {
+        // a header block in one HEADERS frame of more than 16384 octets (one long field value):
+        // whether such a frame is acceptable must not depend on what another connection announced
+        let n = 16500 + r.usize(900);
+        let mut big = vec![0x00, 5];
+        big.extend_from_slice(b"x-big");
+        big.push(0x7f);
+        let mut rest = n - 127;
+        while rest >= 128 {
+            big.push((rest % 128) as u8 | 0x80);
+            rest /= 128;
+        }
+        big.push(rest as u8);
+        big.extend(std::iter::repeat(b'v').take(n));
+        rb.extend(big);
     }
     res.extend(frame(1, 0x04, 1, &rb));
     (req, res)
@@ -487,7 +515,7 @@ pub fn gen_conn_ep(r: &mut Rng, id: u64, kind: Kind, base: u64, ep: Option<Endpo
             let (req, res) = match H2.get() {
                 Some(p) => p(r, id, hostile),
                 None if r.chance(2, 3) => rich_h2(r, id, hostile),
-                None => simple_h2(r, id, hostile),
+                None => simple_h2_ex(r, id, hostile, true),
             };
             let c = cuts(r, req.len(), 3);
             s.c_stream(&req, &c);
